@@ -438,16 +438,40 @@ class Program:
                     d = json.load(fh)
             except OSError:
                 raise AnalysisError("pcstatic/reference_names.json is missing (tools/gen_reference_names.py)")
-            cls._REF = (frozenset(d["functions"]), frozenset(d["classes"]))
+            cls._REF = (frozenset(d["functions"]), frozenset(d["classes"]), frozenset(d.get("globals", ())))
         return cls._REF
 
     def is_new_function(self, fi):
         """Introduced after the rules were written (no function of that name in the reference tree): an extracted
         helper.  No specification can mention it, so the interpreters look inside it."""
-        fns, classes = self._reference()
+        fns, classes = self._reference()[:2]
         if fi.cls is not None and fi.cls.name not in classes:
             return True
         return fi.name not in fns
+
+    def is_new_global(self, name):
+        """A module-level immutable table / constant of the repository that the reference tree does not have (introduced
+        by a refactoring)."""
+        short = name.split(".")[-1]
+        if short in self._reference()[2]:
+            return False
+        cache = self.__dict__.setdefault("_modvars", None)
+        if cache is None:
+            cache = set()
+            for m in self.modules.values():
+                for st in m.tree.body:
+                    if isinstance(st, (ast.Assign, ast.AnnAssign)) and getattr(st, "value", None) is not None:
+                        v = st.value
+                        # immutable tables only: a module-level dict / list / set is state (a memo table, a registry),
+                        # and a comparison that differs through one differs
+                        frozen = isinstance(v, (ast.Tuple, ast.Constant)) or (isinstance(v, ast.Call) and ast.unparse(v.func).split(".")[-1] in ("frozenset", "tuple", "MappingProxyType"))
+                        if not frozen:
+                            continue
+                        for t in (st.targets if isinstance(st, ast.Assign) else [st.target]):
+                            if isinstance(t, ast.Name):
+                                cache.add(t.id)
+            self.__dict__["_modvars"] = cache
+        return short in cache
 
     def is_new_class(self, ci):
         return ci.name not in self._reference()[1]
